@@ -360,7 +360,7 @@ def lf_setting(rng, model, edges, bins=False):
         return dict(what="mprobs", value=[v / s for v in p])
     if w < 0.2:
         return dict(what="aln", length=rng.choice([30, 60]), aln_seed=rng.randint(0, 3))
-    if bins and w < 0.3:
+    if bins == "gamma" and w < 0.3:
         v = rng.choice([0.01, 0.01, round(rng.uniform(0.3, 4.0), 3)])      # lower bound of rate_shape is 0.01
         return dict(what="par", par="rate_shape", edges=None, value=v, const=rng.random() < 0.3, indep=False)
     # scope of the rule: every edge / one edge / a subset, tied or independent
@@ -388,16 +388,17 @@ def lf_case(rng, block, raising=False):
     tree, edges = rng.choice(TREES)
     model = rng.choice(["HKY85", "HKY85", "GTR", "F81"])
     spec = dict(tree=tree, model=model, length=60, aln_seed=rng.randint(0, 3))
-    bins = (not raising) and rng.random() < 0.3
+    bins = (not raising) and rng.random() < 0.35
     if bins:
-        spec["bins"] = 2
+        spec["dist"] = rng.choice(["gamma", "free", "free"])
+        spec["bins"] = 2 if spec["dist"] == "gamma" else rng.choice([2, 3])
     ops = []
     for _ in range(rng.randint(4, 9)):
         w = rng.random()
         if w < 0.45:
-            ops.append(dict(op="set", s=lf_setting(rng, model, edges, bins)))
+            ops.append(dict(op="set", s=lf_setting(rng, model, edges, spec.get("dist", "gamma") if bins else False)))
         elif w < 0.65:
-            ops.append(dict(op="postponed", body=[lf_setting(rng, model, edges, bins) for _ in range(rng.randint(1, 3))], raises=False))
+            ops.append(dict(op="postponed", body=[lf_setting(rng, model, edges, spec.get("dist", "gamma") if bins else False) for _ in range(rng.randint(1, 3))], raises=False))
         elif w < 0.9:
             steps = []
             for _ in range(rng.randint(3, 10)):
@@ -415,8 +416,10 @@ def lf_case(rng, block, raising=False):
                 # the session ENDS with one or two parameters on a bound
                 steps += [["bound", rng.randint(0, 9), rng.choice(["lo", "lo", "hi"])] for _ in range(rng.randint(1, 2))]
             ops.append(dict(op="calc", steps=steps))
-        else:
+        elif w < 0.95:
             ops.append(dict(op="roundtrip"))
+        else:
+            ops.append(rng.choice([dict(op="refresh"), dict(op="optimise", evals=rng.choice([0, 1, 3, 6]))]))
     if raising:
         k = rng.randint(0, len(ops))
         ops.insert(k, dict(op="postponed", body=[dict(what="par", par="length", edges=[edges[0]], value=0.9, const=False, indep=True)],
@@ -466,6 +469,82 @@ def lf_exhaustive_block(tier):
     ]
     cases += [dict(kind="lf", block="exhaustive-bins", spec=spec2, edges=edges, ops=[dict(o) for o in hist])
               for hist in itertools.product(alpha2, repeat=depth)]
+    return cases
+
+
+def lf_refused_rule_block(rng, tier):
+    """(A) a rule that expands to several scopes and is refused with ValueError because ONE of them has incompatible
+    bounds; the caller catches; afterwards (immediately, after another accepted rule, after make_calculator(), after a
+    short optimise()) everything must equal a function rebuilt from the accepted rules only.  Every edge / cell in
+    turn is the tightly bounded one."""
+    par = lambda **kw: dict(dict(what="par", edges=None, bins=None, const=False, indep=False), **kw)
+    follow = [[dict(op="roundtrip")], [dict(op="refresh")], [dict(op="optimise", evals=2)],
+              [dict(op="set", s=par(par="kappa", value=2.0))], [dict(op="set", s=par(par="length", edges=["b"], value=0.4, indep=True))]]
+    cases = []
+    tree, edges = TREES[1]
+    for k, e in enumerate(edges):
+        for j, f in enumerate(follow):
+            if tier == "quick" and (k + j) % 2:
+                continue
+            spec = dict(tree=tree, model="HKY85", length=60, aln_seed=(k + j) % 4)
+            ops = [dict(op="set", s=par(par="length", edges=[e], value=1.0, upper=2.0, indep=True)),
+                   dict(op="set", s=par(par="length", value=4.0, lower=3.0, indep=True))]        # refused: lower 3 > upper 2 at e
+            ops += [dict(o) for o in f] + [dict(op="refresh")]
+            cases.append(dict(kind="lf", block="refused-rules", spec=spec, edges=edges, ops=ops))
+    # a refused rule over edge x bin cells, the tight cell in every position
+    tree, edges = TREES[0]
+    for e in edges:
+        for b in ("bin0", "bin1"):
+            spec = dict(tree=tree, model="HKY85", length=60, aln_seed=1, bins=2, dist="gamma")
+            ops = [dict(op="set", s=par(par="kappa", edges=[e], bins=[b], value=1.5, upper=2.0)),
+                   dict(op="set", s=par(par="kappa", value=4.0, lower=3.0, indep=True)),
+                   dict(op="refresh"),
+                   dict(op="set", s=par(par="kappa", edges=[edges[0]], value=1.2))]
+            cases.append(dict(kind="lf", block="refused-rules", spec=spec, edges=edges, ops=ops))
+    # random mixtures: tightened bounds, wide rules with a raised lower bound (some refused), refreshes
+    for _ in range(8 if tier == "quick" else 150):
+        tree, edges = rng.choice(TREES)
+        spec = dict(tree=tree, model=rng.choice(["HKY85", "F81"]), length=60, aln_seed=rng.randint(0, 3))
+        ops = []
+        for _ in range(rng.randint(4, 8)):
+            w = rng.random()
+            if w < 0.3:
+                ops.append(dict(op="set", s=par(par="length", edges=sorted(rng.sample(edges, rng.randint(1, 2))), value=round(rng.uniform(0.1, 1.9), 2),
+                                                upper=2.0, indep=rng.random() < 0.7)))
+            elif w < 0.55:
+                E = None if rng.random() < 0.5 else sorted(rng.sample(edges, rng.randint(2, len(edges))))
+                ops.append(dict(op="set", s=par(par="length", edges=E, value=round(rng.uniform(3.0, 5.0), 2), lower=rng.choice([1.0, 3.0]),
+                                                indep=rng.random() < 0.7)))
+            elif w < 0.7:
+                ops.append(dict(op="set", s=par(par="length", edges=[rng.choice(edges)], value=round(rng.uniform(0.1, 1.0), 2), indep=True)))
+            elif w < 0.85:
+                ops.append(rng.choice([dict(op="refresh"), dict(op="optimise", evals=rng.choice([0, 2]))]))
+            else:
+                ops.append(dict(op="roundtrip"))
+        cases.append(dict(kind="lf", block="refused-rules", spec=spec, edges=edges, ops=ops))
+    return cases
+
+
+def lf_hidden_partition_block(rng, tier):
+    """(B) models with optimisable partitions that are not user parameters (ordered_param='rate', distribution='free'):
+    optimiser sessions / optimise(max_evaluations=small) / update_from_calculator, then settings"""
+    par = lambda **kw: dict(dict(what="par", edges=None, bins=None, const=False, indep=False), **kw)
+    tree, edges = TREES[0]
+    alphabet = [
+        dict(op="calc", steps=[["vec", [0.1, 0.05, 0.02]], ["one", 0, 0.2], ["revert"], ["one", 1, 0.15]]),
+        dict(op="optimise", evals=4),
+        dict(op="set", s=par(par="kappa", value=2.5)),
+        dict(op="set", s=par(par="length", edges=["a"], value=0.4, indep=True)),
+        dict(op="refresh"),
+    ]
+    cases = []
+    for nb in (2, 3):
+        spec = dict(tree=tree, model="HKY85", length=60, aln_seed=nb, bins=nb, dist="free")
+        hists = itertools.product(alphabet, repeat=2) if tier == "quick" else itertools.product(alphabet, repeat=3)
+        hists = list(hists)
+        if tier == "quick":
+            hists = [h for h in hists if h[0]["op"] in ("calc", "optimise")]
+        cases += [dict(kind="lf", block="hidden-partitions", spec=spec, edges=edges, ops=[dict(o) for o in h]) for h in hists]
     return cases
 
 
@@ -681,6 +760,10 @@ def check_lf(rep, c, ir, stats):
         stats["lf_steps"] += 1
         if tag == "postponed-raise":
             raised = True
+        if tag.endswith(":rejected"):
+            stats["lf_rejected_rules"] += 1
+        if tag in ("refresh", "optimise"):
+            stats["lf_refresh_steps"] += 1
         if f_lnl is None:
             stats["lf_inadmissible_steps"] += 1      # the newly built function rejects these settings too
             was_rejected = True
@@ -689,12 +772,20 @@ def check_lf(rep, c, ir, stats):
             stats["lf_repairs"] += 1
             was_rejected = False
         bad = None
-        if abs(lnl - f_lnl) > TOL * max(1.0, abs(f_lnl)):
+        if any(t.get("stale") for t in (tabs or {}).values()):
+            bad = "assignments-ahead-of-index"      # settings were assigned by a call that did not complete / update
+        elif abs(lnl - f_lnl) > TOL * max(1.0, abs(f_lnl)):
             bad = "lnL"
         elif nfp != f_nfp:
             bad = "nfp"
         elif extra and extra.get("worst", 0.0) > TOL:
             bad = "calc-step"
+        elif extra and extra.get("writeback", 0.0) > TOL:
+            bad = "writeback"           # after update_from_calculator the function does not report the calculator's value
+        elif extra and extra.get("reread", 0.0) > TOL:
+            bad = "reread"              # the reported value changes when every definition is updated again
+        elif extra and extra.get("rejection_mismatch"):
+            bad = "rule-rejection"      # a rule was refused / accepted against the bounds it meets
         if extra:
             stats["lf_calc_steps"] += extra.get("nsteps", 0)
         if bad:
@@ -715,7 +806,8 @@ def check_lf(rep, c, ir, stats):
             stats["rules_init_at_upper"] += int(ihi)
             stats["rules_const_zero"] += int(v0)
             stats["rules_vector_with_zero"] += int(vec0)
-            kind = "const" if const else "var" if keys[3] or keys[4] or par not in ("mprobs", "bprobs") else "nvar"
+            vector = par in ("mprobs", "bprobs") or par.endswith("_partition")
+            kind = "const" if const else "var" if keys[3] or keys[4] or not vector else "nvar"
             want = RULE_KEYS.get(kind)
             if want is not None and keys != want:
                 rep.violation(f"lf:rule-keys:{kind}", dict(case=dict(c, ops=c["ops"][:k]), step=k, expected_by_spec=want, observed_impl=[par, keys],
@@ -724,7 +816,9 @@ def check_lf(rep, c, ir, stats):
                 break
         rbad = None
         both_inf = rt["lnL"] == lnl      # covers -inf == -inf
-        if rt["worst"] > TOL and rt["which"] and str(rt["which"][0]).split("#")[0] in ("mprobs", "bprobs"):
+        if rt["worst"] > TOL and rt["which"] and str(rt["which"][0]).split("#")[0].endswith("_partition"):
+            rbad = "hidden-partition"            # an optimisable partition that is not a user parameter is not exported
+        elif rt["worst"] > TOL and rt["which"] and str(rt["which"][0]).split("#")[0] in ("mprobs", "bprobs"):
             rbad = "probability-vector"          # the export altered a probability vector (adjusted_gt_minprob)
         elif not both_inf and abs(rt["lnL"] - lnl) > TOL * max(1.0, abs(lnl)):
             rbad = "lnL"
@@ -732,7 +826,7 @@ def check_lf(rep, c, ir, stats):
             rbad = "nfp"
         elif rt["worst"] > TOL:
             rbad = "param"
-        if rbad and not raised and rbad != "probability-vector" and any(non_box_groups(t["cells"]) for t in tabs.values()):
+        if rbad and not raised and rbad not in ("probability-vector", "hidden-partition") and any(non_box_groups(t["cells"]) for t in tabs.values()):
             rbad = "non-box-tie-group"      # the exported scope of a tie group is the bounding box of its cells
         if rbad and not raised:
             rep.violation(f"lf:roundtrip:{rbad}", dict(case=dict(c, ops=c["ops"][:k]), step=k, expected_by_spec=dict(lnL=lnl, nfp=nfp),
@@ -808,7 +902,7 @@ def scope_model_cases(c, ir, fin, chrono):
             if o["raises"] and not fin:
                 break                      # the tables are stale from here on (reported by the oracle)
             steps.append(("rules", [x for x in o["body"] if x["what"] == "par"]))
-        elif o["op"] == "calc":
+        elif o["op"] in ("calc", "optimise"):
             steps.append(("calc", None))
         else:
             steps.append(("rules", []))
@@ -826,7 +920,7 @@ def scope_model_cases(c, ir, fin, chrono):
         for kind, rules in steps:
             for r in rules or []:
                 if r["par"] == par:
-                    floats.add(float(r["value"]))
+                    floats.update(float(r[x]) for x in ("value", "lower", "upper") if r.get(x) is not None)
         rank = {x: i for i, x in enumerate(sorted(floats))}
 
         def cnum(k):
@@ -869,7 +963,9 @@ def scope_model_cases(c, ir, fin, chrono):
                 for r in mine:
                     ind = "None" if r.get("const") else f"(Some {cbool(bool(r.get('indep')))})"
                     ops.append(f"ZRule (({zl_opt(r.get('edges'), 'edge')}, {zl_opt(r.get('bins'), 'bin')}, None), {ind}, {cbool(bool(r.get('const')))}, "
-                               f"(Some {zlit(rank[float(r['value'])])}), None, None)")
+                               f"(Some {zlit(rank[float(r['value'])])}), "
+                               f"{'None' if r.get('const') or r.get('lower') is None else '(Some ' + zlit(rank[float(r['lower'])]) + ')'}, "
+                               f"{'None' if r.get('const') or r.get('upper') is None else '(Some ' + zlit(rank[float(r['upper'])]) + ')'})")
                 if not mine:
                     ops.append("ZUpdate []")
             marks.append(len(ops))      # index (1-based) of the model observation that closes this step
@@ -923,7 +1019,7 @@ def new_stats():
     return dict(steps=0, undo_hits=0, recycled_evals=0, exceptions=0, outside_domain_steps=0, lf_steps=0, lf_calc_steps=0,
                 roundtrips=0, rt_params=0, rules=0, rules_init_zero=0, rules_init_at_lower=0, rules_init_at_upper=0,
                 rules_const_zero=0, rules_vector_with_zero=0, scope_cases=0, scope_steps=0, scope_cells=0, ctl_inadmissible_steps=0, ctl_repairs=0,
-                lf_inadmissible_steps=0, lf_repairs=0, nontrivial=set())
+                lf_inadmissible_steps=0, lf_repairs=0, lf_rejected_rules=0, lf_refresh_steps=0, nontrivial=set())
 
 
 def run(tier: str, seed: int) -> int:
@@ -969,6 +1065,8 @@ def run(tier: str, seed: int) -> int:
     cases += [ctl_case(rng, "random") for _ in range(n_ctl)]
     cases += [ctl_case(rng, "random-rejections", guards=True) for _ in range(n_ctl)]
     cases += lf_rejection_block(rng, tier)
+    cases += lf_refused_rule_block(rng, tier)
+    cases += lf_hidden_partition_block(rng, tier)
     cases += lf_exhaustive_block(tier)
     cases += [lf_case(rng, "random") for _ in range(n_lf)]
 
@@ -1023,6 +1121,8 @@ def run(tier: str, seed: int) -> int:
                                 controller_steps_in_a_rejected_state=stats["ctl_inadmissible_steps"],
                                 controller_repairs_after_rejection=stats["ctl_repairs"],
                                 lf_steps_in_a_rejected_state=stats["lf_inadmissible_steps"], lf_repairs_after_rejection=stats["lf_repairs"],
+                                lf_rules_refused_for_incompatible_bounds=stats["lf_rejected_rules"],
+                                lf_refresh_or_optimise_steps=stats["lf_refresh_steps"],
                                 scope_table_model_cases=stats["scope_cases"], scope_table_steps_compared=stats["scope_steps"],
                                 scope_table_cells_compared=stats["scope_cells"]),
         model_impl_disagreements=len(disagreements),
